@@ -451,7 +451,7 @@ type transition struct {
 }
 
 func (x *Exec) quiesce() bool {
-	timer := time.NewTimer(10 * time.Second)
+	timer := time.NewTimer(45 * time.Second)
 	defer timer.Stop()
 	for x.running > 0 || x.pending > 0 {
 		select {
@@ -672,7 +672,7 @@ func run(sc *Scenario, prefix []int) (x *Exec, engineErr string) {
 				x.Stuck = x.ctxGranted
 				return x, ""
 			}
-			return x, "no quiescence within 10 s (unknown goroutine or unhooked blocking call): " + x.describe()
+			return x, "no quiescence within 45 s (unknown goroutine or unhooked blocking call): " + x.describe()
 		}
 		if sc.Stop != nil && sc.Stop(x, x.State) {
 			x.Stopped = true
@@ -815,7 +815,7 @@ func run(sc *Scenario, prefix []int) (x *Exec, engineErr string) {
 }
 
 func (x *Exec) quiesceUntilRegistered(n int) bool {
-	deadline := time.After(20 * time.Second)
+	deadline := time.After(60 * time.Second)
 	for {
 		x.mu.Lock()
 		have := len(x.tasks)
@@ -907,7 +907,7 @@ func (x *Exec) grantEarly(t *Task) string {
 	t.parked = false
 	t.inflight = true
 	t.resume <- struct{}{}
-	deadline := time.Now().Add(10 * time.Second)
+	deadline := time.Now().Add(45 * time.Second)
 	for {
 		r, s := chanWaiters(o.ch.Value())
 		if r == len(x.inRecv[o.ch]) && s == len(x.inSend[o.ch]) {
@@ -1172,7 +1172,7 @@ func Explore(sc *Scenario, maxBound, limit int) *Stats {
 				// confirm before believing a time-based observation
 				y, e2 := run(sc, x.Choices)
 				if e2 != "" || y.Stuck == "" {
-					st.EngineError = "a task did not reach its next scheduling point within 10 s, and this did not reproduce: " + x.Stuck + " " + e2
+					st.EngineError = "a task did not reach its next scheduling point within 45 s, and this did not reproduce: " + x.Stuck + " " + e2
 					return false
 				}
 				st.Executions++
